@@ -57,8 +57,11 @@ def signature(detail):
     if sc.get('entry') in ('filter_tables', 'filter_split') or sc.get('filter'):
         site = '%s.%s' % (sc.get('filter'), 'filter_tables' if sc.get('entry') in (
             'filter_tables', 'filter_split') else sc.get('entry'))
-    return '%s:%s:%s:%s' % (detail.get('prop'), site, sc.get('measure') or detail.get('measure') or
-                            '-', detail.get('clause'))
+    sig = '%s:%s:%s:%s' % (detail.get('prop'), site, sc.get('measure') or detail.get('measure') or
+                           '-', detail.get('clause'))
+    if detail.get('subclass'):
+        sig += ':' + detail['subclass']
+    return sig
 
 
 class Check(object):
